@@ -62,4 +62,8 @@ theorem C14_time_comparisons :
       [("mjml.parseAST", "Before", "time.Now()", "entry.expires"),
        ("mjml.startASTCacheCleanup", "After", "now", "entry.expires")] := by decide
 
+/-- Regenerated fact: an entry's expiry is computed in one place, as `time.Now().Add(ttl)` (saturating: a huge TTL gives the
+    far future, never the past). -/
+theorem C14_expiry_expression : Gomjml.Gen.Misc.expiryExprs = [("mjml.parseAST", "time.Now().Add(ttl)")] := by decide
+
 end Gomjml.Props.C14
